@@ -18,6 +18,9 @@ claimed = {
  "C04": ("post-dominator control dependence + dominance on SSA (non-interference of counters, indicator tests before success return, severity case dominance, phi-constant exit path walk)",
          "Structural necessary conditions of the verdict: every success return of runLint is dominated by tests of all live failure indicators; counters/verdict are not control- or data-dependent on -json/-v/-vv; counters incremented under their own severity; ErrExit reaches os.Exit(non-zero). Decides control structure for all inputs, not printed numbers.",
          "trusts go/types + go/ssa (x/tools v0.50.0), my dominator/post-dominator code; assumes exit status only comes from os.Exit in cmd/falco.main", "DESIGN.md §4 C04"),
+ "C09": ("who-may-decide taint analysis on SSA: computed set of comment-bearing ast renderers, inter-procedural string taint into decision sinks (comparisons, map keys, conversions to named string types, predicates); who-may-read census of comment slots against a reviewed reader table; layout fields in branch-condition slices",
+         "Structural necessary conditions of inertness: no decision in parser/linter/interpreter/tester is fed by a rendering that embeds comments; comment text is read only by the enumerated annotation parsers; layout fields never steer a branch of linter/simulator. Holds for every program and every decoration at once.",
+         "trusts go/ssa; reviewed annotation-parser table in c09.go (one reason each)", "DESIGN.md §4 C09"),
  "C10": ("dominance/pairing rules on SSA + CHA reachability of global writes (exit guard, fail pairing, fresh interpreter per test, assertion wrapper sibling agreement, reviewed global-state set)",
          "Structural necessary conditions: success exit only behind Fails==0; every failing test bumps the fail counter and records its error; ungrouped tests get a fresh interpreter created inside the statement loop with re-injected testing functions; all 24 assertion closures return the assertion error and pair Fail/Pass with it; no unreviewed package-level state is written during a test. Decides structure for all test files; not coverage-instrumentation equivalence.",
          "trusts go/ssa and the CHA call graph (over-approximate) of x/tools v0.50.0; reviewed-global table in c10.go", "DESIGN.md §4 C10"),
